@@ -9,6 +9,7 @@ import SqlgrepModel.Drivers.Lex
 import SqlgrepModel.Drivers.ParseStmt
 import SqlgrepModel.Drivers.ParseExpr
 import SqlgrepModel.Drivers.Pipeline
+import SqlgrepModel.Drivers.JsonText
 /- Line protocol driver: `<kind> <payload…>` per line in, one answer line out. -/
 open Sqlgrep
 
@@ -37,6 +38,7 @@ def dispatch (line : String) : String :=
     | "stmt" => Drivers.ParseStmt.handleStmt args
     | "pexpr" => Drivers.ParseExpr.handle args
     | "e2e" => Drivers.Pipeline.handle args
+    | "jsontext" => Drivers.JsonText.handle args
     | _ => "unknown-kind"
   | _ => "bad-line"
 
